@@ -951,18 +951,32 @@ func c14Stop(c *Ctx, ix *PkgIndex, m otlpMod) {
 		if !ok || !isCallTo(info, call, "(*sync.Once).Do") || len(call.Args) != 1 {
 			return false
 		}
-		lit, ok := unparen(call.Args[0]).(*ast.FuncLit)
-		if !ok {
-			return false
+		arg := unparen(call.Args[0])
+		if lit, ok := arg.(*ast.FuncLit); ok {
+			hit := false
+			ast.Inspect(lit.Body, func(m ast.Node) bool {
+				if closes(m) {
+					hit = true
+				}
+				return true
+			})
+			return hit
 		}
-		hit := false
-		ast.Inspect(lit.Body, func(m ast.Node) bool {
-			if closes(m) {
-				hit = true
-			}
-			return true
-		})
-		return hit
+		// a method value or function name: X.Do(d.signalStop) with the close on every path of that function
+		var fobj *types.Func
+		switch a := arg.(type) {
+		case *ast.SelectorExpr:
+			fobj, _ = info.Uses[a.Sel].(*types.Func)
+		case *ast.Ident:
+			fobj, _ = info.Uses[a].(*types.Func)
+		}
+		if h := ix.declByObj(fobj); h != nil {
+			hg := ix.FG(h)
+			th := toSet(hg.Match(closes))
+			s, _ := hg.ReachFromEntry(func(x *GNode) bool { return th[x] }, nil)
+			return len(th) > 0 && !s[hg.Exit]
+		}
+		return false
 	}))
 	seen, parent := g.ReachFromEntry(func(x *GNode) bool { return through[x] }, nil)
 	c.Analysed(fn)
